@@ -65,6 +65,9 @@ func (p *wirePort) WritePacket(r *stack.Route, hdr buffer.Prependable, payload b
 	if r != nil {
 		dst = r.RemoteLinkAddress
 	}
+	if p.w == nil {
+		return nil // a leftover goroutine of a dead world
+	}
 	p.w.emit(&Frame{From: p.node, NIC: p.nic, Proto: proto, Data: b, DstMAC: dst, SrcMAC: p.linkAddr})
 	return nil
 }
@@ -87,10 +90,25 @@ type World struct {
 	barriers int
 }
 
+var lastWorld *World
+
 func NewWorld() *World {
+	// The repository keeps every registered link endpoint in a global map for ever; cut the
+	// references from the previous world's ports so that dead worlds can be collected.
+	if lastWorld != nil {
+		for _, n := range lastWorld.Nodes {
+			for _, p := range n.Ports {
+				p.w, p.node, p.disp = nil, nil, nil
+			}
+			n.S = nil
+		}
+		lastWorld.Nodes, lastWorld.All, lastWorld.inflight = nil, nil, nil
+	}
 	vtime.EnableVirtual()
 	vrand.Force(0) // ephemeral port search starts at 16000: deterministic local ports
-	return &World{}
+	w := &World{}
+	lastWorld = w
+	return w
 }
 
 func (w *World) emit(f *Frame) {
